@@ -23,6 +23,7 @@ func Verif_C08_InProcStream() {
 	k := zv.Choose("responses", 4)
 	fails := zv.Bool("handler-fails")
 	withMeta := zv.Bool("headers-and-trailers")
+	headerFirst := zv.Bool("client-asks-for-headers-first")
 	hooks := &verifHooks{}
 	hooks.Stream = func(tag string, ss grpc.ServerStream) error {
 		for {
@@ -52,6 +53,9 @@ func Verif_C08_InProcStream() {
 	}
 	cs.SendMsg(&verifMsg{Count: 1})
 	cs.CloseSend()
+	if headerFirst {
+		cs.Header()
+	}
 	m := &verifMsg{}
 	first := cs.RecvMsg(m)
 	zv.Observe("first", k, fails, first == nil)
